@@ -3,7 +3,7 @@
    input corpus/C11/hex_literal_*.json before /repo commit c31b9fc (the magic-numbers rule raised ValueError
    "Exceeds the limit (4300 digits) for integer string conversion" on a 5000-digit hexadecimal literal); the
    re-raising clause itself is still in the source, so any rule raising a ValueError on content has this effect. *)
-From TL Require Import Lib.Base Lib.GenTypes Model.ContainTypes Gen.ContainGen Model.Contain Model.ContainRun Actual.ContainActual.
+From TL Require Import Lib.Base Lib.GenTypes Model.ContainTypes Gen.ContainGen Model.Contain Model.ContainRun Model.ContainWalk Actual.ContainActual.
 
 Definition w_rules : list rule :=
   [ {| r_id := "nesting"; r_res := fun p => Ok [("nesting", p, 3)]; r_contrib := fun _ => []; r_final := fun _ => Ok []; r_cross := false |};
@@ -32,8 +32,30 @@ Theorem C11_value_error_parallel_refuted :
   /\ fst (run_par contain_actual w_rules w_files) <> spec_run w_rules w_files.
 Proof. vm_compute. split; [reflexivity|discriminate]. Qed.
 
+(* ---- q_finalize_unguarded: a cross-file rule whose finalize() raises (here: KeyError once its store holds datum 7) ---- *)
+Definition f_rules : list rule :=
+  [ {| r_id := "nesting"; r_res := fun p => Ok [("nesting", p, 3)]; r_contrib := fun _ => []; r_final := fun _ => Ok []; r_cross := false |};
+    {| r_id := "dry"; r_res := fun _ => Ok []; r_contrib := fun p => if String.eqb p "odd.py" then [(p, 7)] else [(p, 1)];
+       r_final := fun s => if existsb (fun ev : evid => snd ev =? 7) s then Fail EKey else Ok (map (fun ev : evid => ("dry", fst ev, snd ev)) s);
+       r_cross := true |} ].
+
+Theorem C11_finalize_unguarded_refuted :
+  fst (run contain_actual f_rules ["a.py"; "odd.py"]) = Crashed EKey
+  /\ fst (run contain_actual f_rules ["a.py"; "odd.py"]) <> spec_run f_rules ["a.py"; "odd.py"]
+  /\ spec_run f_rules ["a.py"; "odd.py"]
+     = Completed [("a.py", "nesting", [("nesting", "a.py", 3)]); ("a.py", "dry", []);
+                  ("odd.py", "nesting", [("nesting", "odd.py", 3)]); ("odd.py", "dry", [])]
+                 [("nesting", []); ("dry", [])]
+  /\ exit_code (fst (run contain_actual f_rules ["a.py"; "odd.py"])) = 2.
+Proof. vm_compute. repeat split; try reflexivity. discriminate. Qed.
+
 (* UnicodeDecodeError and JSONDecodeError are ValueErrors too *)
 Theorem C11_value_family_members_refuted :
   map (fun e => (exc_name e)) (filter (fun e => match dispatch safe_check_handlers e with Some HReturnEmpty => false | _ => true end) all_exc)
   = ["ValueError"; "UnicodeDecodeError"; "UnicodeEncodeError"; "JSONDecodeError"].
 Proof. vm_compute. reflexivity. Qed.
+
+(* ---- q_walk_recursive: 40 nested nodes do not fit into 30 frames (the real numbers: ~1000 frames, nesting beyond ~950) ---- *)
+Theorem C11_walk_recursive_refuted :
+  walker walk_actual 30 "x" (skel 40 3) = None /\ count "x" (skel 40 3) = 3 /\ walker walk_actual 41 "x" (skel 40 3) = Some 3.
+Proof. vm_compute. repeat split; reflexivity. Qed.
